@@ -58,11 +58,12 @@ class Plan(object):
         self.idle = idle          # idle ticks after the last planned action
         self.finished = False     # application generator ran to its end
         self.emitted = 0
+        self.big = 0              # > 0: the one body chunk has this many bytes and the client drains it slowly
 
     def describe(self):
         return {"id": self.name, "request": self.kind, "connect_tick": self.start,
                 "piece_ticks": [t for t, _ in self.pieces], "piece_lengths": [len(b) for _, b in self.pieces],
-                "body_chunk_ticks": self.emits, "idle_ticks_after": self.idle}
+                "body_chunk_ticks": self.emits, "idle_ticks_after": self.idle, "big_body_bytes": self.big}
 
     def last_tick(self):
         return max([self.start] + [t for t, _ in self.pieces] + self.emits) + self.idle
@@ -85,7 +86,14 @@ def gen_plan(rng, name, front, start):
         for _ in range(rng.randint(1, 4)):
             t += max(1, rng.choice(GAPS))
             emits.append(t)
-    return Plan(name, kind, start, pieces, emits, rng.choice((2, 9, 12, 20)))
+    plan = Plan(name, kind, start, pieces, emits, rng.choice((2, 9, 12, 20)))
+    if emits and kind in ("close11", "http10") and rng.random() < 0.35:
+        # a body much larger than the (deliberately small) socket buffers, read slowly by the client: for longer than
+        # the timeout every server pass is a *partial* send -- bytes flow all the time, the connection is not idle
+        plan.big = rng.choice((300000, 450000))
+        plan.emits = emits[:1]
+        plan.idle = 60
+    return plan
 
 
 class World(object):
@@ -112,6 +120,9 @@ class World(object):
         if not self.srv.reopen():
             raise Inconclusive("cannot open a loopback listen socket")
         self.srv.eha = self.srv.ha       # ServerTls compares accepted sockets with .eha; port 0 is only known now
+        if any(p.big for p in plans):
+            import socket as _socket        # accepted sockets inherit the small send buffer (and no auto-tuning)
+            self.srv.ss.setsockopt(_socket.SOL_SOCKET, _socket.SO_SNDBUF, 8192)
         self.clients = {}
         self.clienting = clienting
 
@@ -121,7 +132,10 @@ class World(object):
         while plan.emitted < len(plan.emits):
             if self.tick >= plan.emits[plan.emitted]:
                 plan.emitted += 1
-                yield b"<%s#%d>" % (plan.name.encode(), plan.emitted)
+                if plan.big:
+                    yield b"%-16s" % (b"<%s#big>" % plan.name.encode()) * (plan.big // 16)
+                else:
+                    yield b"<%s#%d>" % (plan.name.encode(), plan.emitted)
             else:
                 yield b""
         plan.finished = True
@@ -133,6 +147,9 @@ class World(object):
         else:
             cl = self.clienting.Client(ha=self.srv.ha, store=self.clk, timeout=0.0)
         cl.reopen()
+        if plan.big:
+            import socket as _socket
+            cl.cs.setsockopt(_socket.SOL_SOCKET, _socket.SO_RCVBUF, 4096)
         self.clients[plan.name] = cl
         return cl
 
@@ -218,6 +235,12 @@ def run_case(ctx, rng, idx):
                 sent_all = b"".join(d for a, d in W.wl.rx if a == ca) == b"".join(b for _, b in plan.pieces) and plan.pieces
                 if front == "Valet":
                     ended = plan.finished
+                    if plan.big:        # ... and ended only when the server has handed the whole body to its socket
+                        handed = sum(len(d) for a, d in W.wl.tx if a == ca)
+                        ended = ended and handed >= plan.big
+                        ctx.hit("big_body_closures")
+                        if now - st["accept"] > T:
+                            ctx.hit("big_body_transfer_longer_than_timeout")
                 else:
                     ended = bool(sent_all)
                 reason = "response ended" if (ended and not st["persisted"]) else "timer"
@@ -275,7 +298,11 @@ def run_case(ctx, rng, idx):
                     serve()
                     for cl in order:
                         if cl.connected and not cl.cutoff:
-                            cl.serviceReceives()
+                            if any(p.big and W.clients.get(p.name) is cl for p in plans):
+                                cl.serviceReceiveOnce()      # a slow reader: one buffer per round
+                                del cl.rxbs[:]
+                            else:
+                                cl.serviceReceives()
                 loop.watchdog()
                 loop.advance(W.dt)
             ctx.hit("connections", len(plans))
@@ -312,3 +339,4 @@ def run(ctx):
         for front in ("Valet", "Porter"):
             ctx.floor("cases_%s_%s" % (front, sock), ctx.pick(40, 600))
     ctx.floor("distinct_nontrivial", ctx.pick(150, 2000))
+    ctx.floor("big_body_transfer_longer_than_timeout", ctx.pick(8, 100))
